@@ -1,5 +1,396 @@
 
 
+//@@ octo-squirrel/src/protocol/address.rs:9-13  enum Address  sha=d701f69e752e0952
+#[derive(PartialEq, Eq, Clone)]
+enum Address {
+    Domain(String, u16),
+    Socket(SocketAddr),
+}
+
+//@@ octo-squirrel/src/protocol/socks5.rs:9-9  const VERSION  sha=31c82d410f6df766
+const VERSION: u8 = 5;
+
+//@@ octo-squirrel/src/protocol/socks5.rs:11-15  enum Socks5CommandStatus  sha=a67902fd29d73d0f
+#[derive(PartialEq, Eq, Clone, Copy)]
+enum Socks5CommandStatus {
+    Success,
+    Failure,
+}
+
+//@@ octo-squirrel/src/protocol/socks5.rs:17-29  impl TryFrom for Socks5CommandStatus  sha=fd0d55fe4da0bd20
+impl TryFrom<u8> for Socks5CommandStatus {
+    type Error = anyhow::Error;
+
+    fn try_from(value: u8) -> Result<Self, Self::Error> {
+        if Self::Success as u8 == value {
+            Ok(Self::Success)
+        } else if Self::Failure as u8 == value {
+            Ok(Self::Failure)
+        } else {
+            return Err(verif_err());
+        }
+    }
+}
+
+//@@ octo-squirrel/src/protocol/socks5.rs:31-36  enum Socks5AddressType  sha=6571f459743d9f1b
+#[derive(PartialEq, Eq, Clone, Copy)]
+enum Socks5AddressType {
+    Ipv4 = 1,
+    Domain = 3,
+    Ipv6 = 4,
+}
+
+//@@ octo-squirrel/src/protocol/socks5.rs:38-52  impl TryFrom for Socks5AddressType  sha=a2da60cfb209176f
+impl TryFrom<u8> for Socks5AddressType {
+    type Error = anyhow::Error;
+
+    fn try_from(value: u8) -> Result<Self, Self::Error> {
+        if Self::Ipv4 as u8 == value {
+            Ok(Self::Ipv4)
+        } else if Self::Domain as u8 == value {
+            Ok(Self::Domain)
+        } else if Self::Ipv6 as u8 == value {
+            Ok(Self::Ipv6)
+        } else {
+            return Err(verif_err());
+        }
+    }
+}
+
+//@@ octo-squirrel/src/protocol/socks5.rs:54-59  enum Socks5CommandType  sha=dc476d448b8347ac
+#[derive(PartialEq, Copy, Clone)]
+enum Socks5CommandType {
+    Connect = 1,
+    Bind = 2,
+    UdpAssociate = 3,
+}
+
+//@@ octo-squirrel/src/protocol/socks5.rs:61-73  impl Socks5CommandType  sha=c537aa93435591bf
+impl Socks5CommandType {
+    fn new(byte: u8) -> Result<Self> {
+        if Self::Connect as u8 == byte {
+            Ok(Self::Connect)
+        } else if Self::Bind as u8 == byte {
+            Ok(Self::Bind)
+        } else if Self::UdpAssociate as u8 == byte {
+            Ok(Self::UdpAssociate)
+        } else {
+            return Err(verif_err());
+        }
+    }
+}
+
+//@@ octo-squirrel/src/protocol/socks5.rs:75-81  enum Socks5AuthMethod  sha=6d6099cb2a681b28
+#[derive(PartialEq, Eq, Clone, Copy)]
+enum Socks5AuthMethod {
+    NoAuth,
+    Gssapi,
+    Password,
+    Unaccepted = 255,
+}
+
+//@@ octo-squirrel/src/protocol/socks5.rs:83-97  impl Socks5AuthMethod  sha=d8a72e4c7070a4ae
+impl Socks5AuthMethod {
+    fn new(byte: u8) -> Result<Self> {
+        if Self::NoAuth as u8 == byte {
+            Ok(Self::NoAuth)
+        } else if Self::Gssapi as u8 == byte {
+            Ok(Self::Gssapi)
+        } else if Self::Password as u8 == byte {
+            Ok(Self::Password)
+        } else if Self::Unaccepted as u8 == byte {
+            Ok(Self::Unaccepted)
+        } else {
+            return Err(verif_err())
+        }
+    }
+}
+
+//@@ octo-squirrel/src/protocol/socks5/address.rs:16-35  fn encode  sha=2d4531094da3eeb9
+fn address__encode(addr: &Address, dst: &mut BytesMut) {
+    match addr {
+        Address::Domain(host, port) => {
+            dst.put_u8(Socks5AddressType::Domain as u8);
+            dst.put_u8(host.len() as u8);
+            dst.extend_from_slice(host.as_bytes());
+            dst.put_u16(*port);
+        }
+        Address::Socket(SocketAddr::V4(v4)) => {
+            dst.put_u8(Socks5AddressType::Ipv4 as u8);
+            dst.extend_from_slice(&v4.ip().octets());
+            dst.put_u16(v4.port());
+        }
+        Address::Socket(SocketAddr::V6(v6)) => {
+            dst.put_u8(Socks5AddressType::Ipv6 as u8);
+            dst.extend_from_slice(&v6.ip().octets());
+            dst.put_u16(v6.port())
+        }
+    }
+}
+
+//@@ octo-squirrel/src/protocol/socks5/address.rs:37-71  fn decode  sha=288a7ff43f0bf184
+fn address__decode(src: &mut BytesMut) -> Result<Address> {
+    if !src.has_remaining() {
+        return Err(verif_err());
+    }
+    let addr_type = Socks5AddressType::try_from(src.get_u8())?;
+    match addr_type {
+        Socks5AddressType::Ipv4 => {
+            if src.remaining() < 4 + 2 {
+                return Err(verif_err());
+            }
+            let ip_v4 = Ipv4Addr::from(src.get_u32());
+            Ok(Address::Socket(SocketAddr::V4(SocketAddrV4::new(ip_v4, src.get_u16()))))
+        }
+        Socks5AddressType::Domain => {
+            if !src.has_remaining() {
+                return Err(verif_err());
+            }
+            let len = src.get_u8();
+            if src.remaining() < len as usize + 2 {
+                return Err(verif_err());
+            }
+            let host_bytes = src.split_to(len as usize);
+            let port = src.get_u16();
+            let host = String::from_utf8(host_bytes.to_vec())?;
+            Ok(Address::Domain(host, port))
+        }
+        Socks5AddressType::Ipv6 => {
+            if src.remaining() < 16 + 2 {
+                return Err(verif_err());
+            }
+            let ip_v6 = Ipv6Addr::from(src.get_u128());
+            Ok(Address::Socket(SocketAddr::V6(SocketAddrV6::new(ip_v6, src.get_u16(), 0, 0))))
+        }
+    }
+}
+
+//@@ octo-squirrel/src/protocol/socks5/address.rs:73-81  fn length  sha=1ce35ec20bf8da66
+fn address__length(addr: &Address) -> usize {
+    match addr {
+        Address::Domain(host, _) => 1 + 1 + host.len() + 2,
+        Address::Socket(socket_addr) => match socket_addr {
+            SocketAddr::V4(_) => 1 + 4 + 2,
+            SocketAddr::V6(_) => 1 + 8 * 2 + 2,
+        },
+    }
+}
+
+//@@ octo-squirrel/src/protocol/socks5/address.rs:83-89  fn try_decode_at  sha=5ccf7be5a6d37f47
+fn address__try_decode_at(src: &BytesMut, at: usize) -> Result<usize> {
+    match Socks5AddressType::try_from(src[at])? {
+        Socks5AddressType::Ipv4 => Ok(1 + 4 + 2),
+        Socks5AddressType::Domain => Ok(1 + 1 + src[at + 1] as usize + 2),
+        Socks5AddressType::Ipv6 => Ok(1 + 8 * 2 + 2),
+    }
+}
+
+//@@ octo-squirrel/src/protocol/socks5/message.rs:15-17  struct Socks5InitialRequest  sha=1f38e54f5ce6f2db
+struct Socks5InitialRequest {
+    auth_methods: Vec<Socks5AuthMethod>,
+}
+
+//@@ octo-squirrel/src/protocol/socks5/message.rs:19-23  impl Socks5InitialRequest  sha=66b70fecd4f00ef9
+impl Socks5InitialRequest {
+    fn new(auth_methods: Vec<Socks5AuthMethod>) -> Self {
+        Socks5InitialRequest { auth_methods }
+    }
+}
+
+//@@ octo-squirrel/src/protocol/socks5/message.rs:24-32  impl Socks5Message for Socks5InitialRequest  sha=058dad5f7f457d1d
+impl Socks5InitialRequest {
+    fn encode(&mut self, dst: &mut BytesMut) {
+        dst.put_u8(VERSION);
+        dst.put_u8(self.auth_methods.len() as u8);
+        for auth_method in self.auth_methods.iter() {
+            dst.put_u8(*auth_method as u8);
+        }
+    }
+}
+
+//@@ octo-squirrel/src/protocol/socks5/message.rs:34-36  struct Socks5InitialResponse  sha=a0c0c6134306fe8c
+struct Socks5InitialResponse {
+    auth_method: Socks5AuthMethod,
+}
+
+//@@ octo-squirrel/src/protocol/socks5/message.rs:38-42  impl Socks5InitialResponse  sha=7a6280ab6a32c0a3
+impl Socks5InitialResponse {
+    fn new(auth_method: Socks5AuthMethod) -> Self {
+        Self { auth_method }
+    }
+}
+
+//@@ octo-squirrel/src/protocol/socks5/message.rs:44-49  impl Socks5Message for Socks5InitialResponse  sha=8dd6279b740c0a99
+impl Socks5InitialResponse {
+    fn encode(&mut self, dst: &mut BytesMut) {
+        dst.put_u8(VERSION);
+        dst.put_u8(self.auth_method as u8);
+    }
+}
+
+//@@ octo-squirrel/src/protocol/socks5/message.rs:51-55  struct Socks5CommandRequest  sha=130272c42a34f604
+#[derive(PartialEq, Clone)]
+struct Socks5CommandRequest {
+    command_type: Socks5CommandType,
+    dst_addr: Address,
+}
+
+//@@ octo-squirrel/src/protocol/socks5/message.rs:57-61  impl Socks5CommandRequest  sha=1349fbb1a81b1852
+impl Socks5CommandRequest {
+    fn new(command_type: Socks5CommandType, dst_addr: Address) -> Self {
+        Self { command_type, dst_addr }
+    }
+}
+
+//@@ octo-squirrel/src/protocol/socks5/message.rs:63-70  impl Socks5Message for Socks5CommandRequest  sha=f6e234156e560fc6
+impl Socks5CommandRequest {
+    fn encode(&mut self, dst: &mut BytesMut) {
+        dst.put_u8(VERSION);
+        dst.put_u8(self.command_type as u8);
+        dst.put_u8(0);
+        address__encode(&self.dst_addr, dst);
+    }
+}
+
+//@@ octo-squirrel/src/protocol/socks5/message.rs:72-75  struct Socks5CommandResponse  sha=1824c387399e2856
+struct Socks5CommandResponse {
+    command_status: Socks5CommandStatus,
+    bnd_addr: Address,
+}
+
+//@@ octo-squirrel/src/protocol/socks5/message.rs:77-84  impl Socks5Message for Socks5CommandResponse  sha=ebab27fe779588e9
+impl Socks5CommandResponse {
+    fn encode(&mut self, dst: &mut BytesMut) {
+        dst.put_u8(VERSION);
+        dst.put_u8(self.command_status as u8);
+        dst.put_u8(0x00);
+        address__encode(&self.bnd_addr, dst);
+    }
+}
+
+//@@ octo-squirrel/src/protocol/socks5/message.rs:86-90  impl Socks5CommandResponse  sha=27aec98fbb40980e
+impl Socks5CommandResponse {
+    fn new(command_status: Socks5CommandStatus, bnd_addr: Address) -> Self {
+        Self { command_status, bnd_addr }
+    }
+}
+
+//@@ octo-squirrel/src/protocol/socks5/codec.rs:42-42  struct Socks5InitialRequestDecoder  sha=afb7b11cbafe5eb2
+struct Socks5InitialRequestDecoder;
+
+//@@ octo-squirrel/src/protocol/socks5/codec.rs:44-64  impl Decoder for Socks5InitialRequestDecoder  sha=728eea90ebc48856
+impl Socks5InitialRequestDecoder {
+
+    fn decode(&mut self, src: &mut BytesMut) -> Result<Option<Socks5InitialRequest>> {
+        if src.remaining() < 2 || src.remaining() < 2 + src[1] as usize {
+            return Ok(None);
+        }
+        let version = src.get_u8();
+        if VERSION != version {
+            return Err(verif_err());
+        }
+        let count = src.get_u8() as usize;
+        let mut auth_methods = Vec::with_capacity(count);
+        for _ in 0..count {
+            auth_methods.push(Socks5AuthMethod::new(src.get_u8())?);
+        }
+        Ok(Some(Socks5InitialRequest::new(auth_methods)))
+    }
+}
+
+//@@ octo-squirrel/src/protocol/socks5/codec.rs:66-66  struct Socks5CommandRequestDecoder  sha=d53c7fcfd58b0c29
+struct Socks5CommandRequestDecoder;
+
+//@@ octo-squirrel/src/protocol/socks5/codec.rs:68-86  impl Decoder for Socks5CommandRequestDecoder  sha=0cf4f3ed562e5442
+impl Socks5CommandRequestDecoder {
+
+    fn decode(&mut self, src: &mut BytesMut) -> Result<Option<Socks5CommandRequest>> {
+        if src.remaining() < 5 || src.remaining() < 3 + address__try_decode_at(src, 3)? {
+            return Ok(None);
+        }
+        let version = src.get_u8();
+        if VERSION != version {
+            return Err(verif_err());
+        }
+        let command_type = Socks5CommandType::new(src.get_u8())?;
+        src.advance(1); // Reserved
+        let addr = address__decode(src)?;
+        Ok(Some(Socks5CommandRequest::new(command_type, addr)))
+    }
+}
+
+//@@ octo-squirrel/src/protocol/socks5/codec.rs:88-88  struct Socks5InitialResponseDecoder  sha=c052d73bb6a96e4f
+struct Socks5InitialResponseDecoder;
+
+//@@ octo-squirrel/src/protocol/socks5/codec.rs:90-105  impl Decoder for Socks5InitialResponseDecoder  sha=11560866b116d94f
+impl Socks5InitialResponseDecoder {
+
+    fn decode(&mut self, src: &mut BytesMut) -> Result<Option<Socks5InitialResponse>, anyhow::Error> {
+        if src.remaining() < 2 {
+            return Ok(None);
+        }
+        let version = src.get_u8();
+        if VERSION != version {
+            return Err(verif_err());
+        }
+        Ok(Some(Socks5InitialResponse::new(Socks5AuthMethod::new(src.get_u8())?)))
+    }
+}
+
+//@@ octo-squirrel/src/protocol/socks5/codec.rs:107-107  struct Socks5CommandResponseDecoder  sha=70bbae6b1f6a9f5e
+struct Socks5CommandResponseDecoder;
+
+//@@ octo-squirrel/src/protocol/socks5/codec.rs:109-127  impl Decoder for Socks5CommandResponseDecoder  sha=856e5fee1ca728c7
+impl Socks5CommandResponseDecoder {
+
+    fn decode(&mut self, src: &mut BytesMut) -> Result<Option<Socks5CommandResponse>> {
+        if src.remaining() < 5 || src.remaining() < 3 + address__try_decode_at(src, 3)? {
+            return Ok(None);
+        }
+        let version = src.get_u8();
+        if VERSION != version {
+            return Err(verif_err());
+        }
+        let command_status = Socks5CommandStatus::try_from(src.get_u8())?;
+        src.advance(1); // Reserved
+        let addr = address__decode(src)?;
+        Ok(Some(Socks5CommandResponse::new(command_status, addr)))
+    }
+}
+
+//@@ octo-squirrel/src/protocol/socks5/codec.rs:129-129  struct Socks5UdpCodec  sha=0d7428243bf68631
+struct Socks5UdpCodec;
+
+//@@ octo-squirrel/src/protocol/socks5/codec.rs:131-150  impl Decoder for Socks5UdpCodec  sha=d32cc3de6bd24cdb
+impl Socks5UdpCodec {
+
+    fn decode(&mut self, src: &mut BytesMut) -> Result<Option<DatagramPacket>, anyhow::Error> {
+        if src.is_empty() {
+            return Ok(None);
+        }
+        if src.remaining() < 5 {
+            return Err(verif_err());
+        }
+        if src[2] != 0 {
+            return Err(verif_err());
+        }
+        src.advance(3);
+        let recipient = address__decode(src)?;
+        Ok(Some((src.split_off(0), recipient)))
+    }
+}
+
+//@@ octo-squirrel/src/protocol/socks5/codec.rs:152-161  impl Encoder for Socks5UdpCodec  sha=cfd7b2faecfc9eac
+impl Socks5UdpCodec {
+
+    fn encode(&mut self, item: DatagramPacket, dst: &mut BytesMut) -> Result<(), anyhow::Error> {
+        dst.extend_from_slice(&[0, 0, 0]); // Fragment
+        address__encode(&item.1, dst);
+        dst.extend_from_slice(&item.0);
+        Ok(())
+    }
+}
+
 //@@ octo-squirrel/src/codec/aead.rs:124-142  enum CipherKind  sha=0afd87d0c4335287
 #[derive(Default, Clone, Copy, PartialEq, Eq)]
 enum CipherKind {
@@ -181,4 +572,369 @@ impl ChunkDecoder {
     fn decode_size(&mut self, data: &mut BytesMut) -> Result<usize, aes_gcm::aead::Error> {
         self.auth.decode_size(data)
     }
+}
+
+//@@ octo-squirrel/src/protocol/shadowsocks.rs:1-5  enum Mode  sha=157d6a8583fec583
+#[derive(Copy, Clone)]
+enum Mode {
+    Client,
+    Server,
+}
+
+//@@ octo-squirrel/src/protocol/shadowsocks.rs:7-21  impl Mode  sha=9b882a919133191f
+impl Mode {
+    fn to_u8(&self) -> u8 {
+        match self {
+            Self::Client => 0,
+            Self::Server => 1,
+        }
+    }
+
+    fn expect_u8(&self) -> u8 {
+        match self {
+            Self::Client => 1,
+            Self::Server => 0,
+        }
+    }
+}
+
+//@@ octo-squirrel/src/manager/shadowsocks.rs:57-62  struct ServerUser  sha=2aac52e3ac4f8a54
+struct ServerUser<const N: usize> {
+    name: String,
+    key: [u8; N],
+    identity_hash: [u8; 16],
+}
+
+//@@ octo-squirrel/src/manager/shadowsocks.rs:64-68  impl ServerUser  sha=c287001fd705f8df
+impl<const N: usize> ServerUser<N> {
+    fn identity_hash(&self) -> [u8; 16] {
+        self.identity_hash
+    }
+}
+
+//@@ octo-squirrel/src/codec/shadowsocks/aead.rs:11-16  fn new_encoder  sha=df55c574a66c5fe4
+fn ssaead__new_encoder(kind: CipherKind, key: &[u8], salt: &[u8]) -> Result<ChunkEncoder, InvalidLength> {
+    let key = ssaead__hkdfsha1(key, salt)?;
+    let auth = ssaead__new_auth(kind, &key);
+    // payload length is capped at 0x3FFF: [2 + tag][0x3fff + tag]
+    Ok(ChunkEncoder::new(0x3fff + 2 + 16 + 16, auth))
+}
+
+//@@ octo-squirrel/src/codec/shadowsocks/aead.rs:18-22  fn new_decoder  sha=65f571aeb68d3b81
+fn ssaead__new_decoder(kind: CipherKind, key: &[u8], salt: &[u8]) -> Result<ChunkDecoder, InvalidLength> {
+    let key = ssaead__hkdfsha1(key, salt)?;
+    let auth = ssaead__new_auth(kind, &key);
+    Ok(ChunkDecoder::new(auth))
+}
+
+//@@ octo-squirrel/src/codec/shadowsocks/aead.rs:31-34  fn new_auth  sha=8e34244a55e2383f
+fn ssaead__new_auth(kind: CipherKind, key: &[u8]) -> Authenticator {
+    let method = CipherMethod::new(kind, key);
+    Authenticator::new(method)
+}
+
+//@@ octo-squirrel/src/codec/shadowsocks/aead_2022.rs:18-18  const SERVER_STREAM_TIMESTAMP_MAX_DIFF  sha=7d2f18feb030e438
+const a22__SERVER_STREAM_TIMESTAMP_MAX_DIFF: u64 = 30;
+
+//@@ octo-squirrel/src/codec/shadowsocks/aead_2022.rs:19-19  const MIN_PADDING_LENGTH  sha=8368a47f3c652dc6
+const a22__MIN_PADDING_LENGTH: u16 = 0;
+
+//@@ octo-squirrel/src/codec/shadowsocks/aead_2022.rs:20-20  const MAX_PADDING_LENGTH  sha=0b7274712965a8d4
+const a22__MAX_PADDING_LENGTH: u16 = 900;
+
+//@@ octo-squirrel/src/codec/shadowsocks/aead_2022.rs:22-25  fn session_sub_key  sha=a547121b41890e9d
+fn a22__session_sub_key(key: &[u8], salt: &[u8]) -> [u8; blake3::OUT_LEN] {
+    let key_material = verif_concat2(key, salt);
+    blake3::derive_key("shadowsocks 2022 session subkey", &key_material)
+}
+
+//@@ octo-squirrel/src/codec/shadowsocks/aead_2022.rs:31-35  fn validate_timestamp  sha=786f62d2f7986d44
+fn a22__validate_timestamp(timestamp: u64) -> Result<(), String> {
+    let now = a22__now().map_err(|e| verif_string())?;
+    let diff = now.abs_diff(timestamp);
+    if diff > a22__SERVER_STREAM_TIMESTAMP_MAX_DIFF { Err(verif_string()) } else { Ok(()) }
+}
+
+//@@ octo-squirrel/src/codec/shadowsocks/aead_2022.rs:41-45  fn new_encoder  sha=5d72a3f8c44bde35
+fn a22__new_encoder(kind: CipherKind, key: &[u8], salt: &[u8]) -> ChunkEncoder {
+    let key = a22__session_sub_key(key, salt);
+    let auth = Authenticator::new(CipherMethod::new(kind, &key));
+    ChunkEncoder::new(0xffff, auth)
+}
+
+//@@ octo-squirrel/src/codec/shadowsocks/aead_2022.rs:47-51  fn new_decoder  sha=ef455ce7fbaf1d29
+fn a22__new_decoder(kind: CipherKind, key: &[u8], salt: &[u8]) -> ChunkDecoder {
+    let key = a22__session_sub_key(key, salt);
+    let auth = Authenticator::new(CipherMethod::new(kind, &key));
+    ChunkDecoder::new(auth)
+}
+
+//@@ octo-squirrel/src/codec/shadowsocks/aead_2022/tcp.rs:20-37  fn new_header  sha=ae92849cbb23ba31
+fn a22tcp__new_header(auth: &mut Authenticator, msg: &mut BytesMut, stream_type: &Mode, request_salt: Option<&[u8]>) -> anyhow::Result<(Bytes, Bytes)> {
+    let mut salt_len = 0;
+    if let Some(request_salt) = request_salt {
+        salt_len = request_salt.len();
+    }
+    let mut fixed = BytesMut::with_capacity(1 + 8 + salt_len + 2);
+    fixed.put_u8(stream_type.to_u8());
+    fixed.put_u64(a22__now()?);
+    if let Some(request_salt) = request_salt {
+        fixed.extend_from_slice(request_salt);
+    }
+    let len = msg.remaining().min(0xffff);
+    let mut via = msg.split_to(len);
+    fixed.put_u16(len as u16);
+    auth.seal(&mut fixed).map_err(|e| verif_err())?;
+    auth.seal(&mut via).map_err(|e| verif_err())?;
+    Ok((fixed.freeze(), via.freeze()))
+}
+
+//@@ octo-squirrel/src/codec/shadowsocks/aead_2022/tcp.rs:39-63  fn new_decoder_with_eih  sha=58579b873adcd714
+fn a22tcp__new_decoder_with_eih<const N: usize>(
+    kind: CipherKind,
+    key: &[u8],
+    salt: &[u8],
+    eih: &[u8],
+    identity: &mut Identity<N>,
+    user_manager: &ServerUserManager<N>,
+) -> Result<ChunkDecoder, anyhow::Error> {
+    let identity_sub_key = blake3::derive_key("shadowsocks 2022 identity subkey", &verif_concat2(key, salt));
+    let user_hash = &mut [0; 16];
+    user_hash.copy_from_slice(&eih[..16]);
+    match kind {
+        CipherKind::Aead2022Blake3Aes128Gcm => Aes128EcbNoPadding::decrypt(&identity_sub_key, user_hash),
+        CipherKind::Aead2022Blake3Aes256Gcm => Aes256EcbNoPadding::decrypt(&identity_sub_key, user_hash),
+        _ => return Err(verif_err()),
+    }
+    /*R2*/
+    if let Some(user) = user_manager.get_user_by_hash(user_hash) {
+        /*R2*/
+        identity.user = Some(user.clone());
+        Ok(a22__new_decoder(kind, &user.key, salt))
+    } else {
+        return Err(verif_err())
+    }
+}
+
+//@@ octo-squirrel/src/codec/shadowsocks/tcp.rs:29-35  struct Context  sha=f38c8bead60f1e38
+struct Context<const N: usize> {
+    key: [u8; N],
+    identity_keys: Vec<[u8; N]>,
+    kind: CipherKind,
+    user_manager: Option<Arc<ServerUserManager<N>>>,
+    nonce_cache: Mutex<LruCache<[u8; N], ()>>,
+}
+
+//@@ octo-squirrel/src/codec/shadowsocks/tcp.rs:37-59  impl Context {fn new}  sha=38c9b6319228a648
+impl<const N: usize> Context<N> {
+    fn new(key: [u8; N], identity_keys: Vec<[u8; N]>, kind: CipherKind, user_manager: Option<Arc<ServerUserManager<N>>>) -> Self {
+        // a salt has to be remembered for as long as its timestamp can still be accepted (2 x 30s window, rounded up)
+        let nonce_cache = Mutex::new(LruCache::with_expiry_duration_and_capacity(Duration::from_secs(61), 102400));
+        Self { key, identity_keys, kind, user_manager, nonce_cache }
+    }
+}
+
+//@@ octo-squirrel/src/codec/shadowsocks/tcp.rs:61-65  struct AEADCipherCodec  sha=b91e742ceaa32d23
+#[derive(Default)]
+struct AEADCipherCodec<const N: usize> {
+    encoder: Option<ChunkEncoder>,
+    decoder: Option<ChunkDecoder>,
+}
+
+//@@ octo-squirrel/src/codec/shadowsocks/tcp.rs:67-241  impl AEADCipherCodec  sha=432cf84be9ebf5a3
+impl<const N: usize> AEADCipherCodec<N> {
+    fn encode(&mut self, context: &Context<N>, session: &Session<N>, mut item: BytesMut, dst: &mut BytesMut) -> anyhow::Result<()> {
+        match self.encoder {
+            Some(ref mut encoder) => encoder.encode_payload(item, dst).map_err(|e| verif_err()),
+            None => {
+                let mut encoder = Self::init_payload_encoder(context, session, dst)?;
+                Self::handle_payload_header(&mut encoder, context, session, &mut item, dst)?;
+                self.encoder = Some(encoder);
+                self.encode(context, session, item, dst)
+            }
+        }
+    }
+
+    fn init_payload_encoder(context: &Context<N>, session: &Session<N>, dst: &mut BytesMut) -> anyhow::Result<ChunkEncoder> {
+        Self::with_identity(context, session, &context.key, &context.identity_keys, dst);
+        let salt = session.identity.salt;
+        /*R2*/
+        Ok(match (context.kind.is_aead_2022(), session.identity.user.as_ref()) {
+            (true, Some(user)) => a22__new_encoder(context.kind, &user.key, &salt),
+            (true, None) => a22__new_encoder(context.kind, &context.key, &salt),
+            (false, _) => ssaead__new_encoder(context.kind, &context.key, &salt).map_err(verif_err_from)?,
+        })
+    }
+
+    fn handle_payload_header(
+        encoder: &mut ChunkEncoder,
+        context: &Context<N>,
+        session: &Session<N>,
+        msg: &mut BytesMut,
+        dst: &mut BytesMut,
+    ) -> anyhow::Result<()> {
+        match session.mode {
+            Mode::Client => {
+                let temp = msg.split_to(msg.len());
+                address__encode(session.address.as_ref().unwrap(), msg);
+                let is_aead_2022 = context.kind.is_aead_2022();
+                if is_aead_2022 {
+                    let padding = a22__next_padding_length(&temp);
+                    msg.put_u16(padding);
+                    msg.extend_from_slice(&dice::roll_bytes(padding as usize))
+                }
+                msg.extend_from_slice(&temp);
+                if is_aead_2022 {
+                    let (fix, via) =
+                        a22tcp__new_header(&mut encoder.auth, msg, &session.mode, session.identity.request_salt.as_ref().map(|arr| &arr[..]))
+                            .map_err(|e| verif_err())?;
+                    dst.extend_from_slice(&fix);
+                    dst.extend_from_slice(&via);
+                }
+                Ok(())
+            }
+            Mode::Server => {
+                if context.kind.is_aead_2022() {
+                    let (fix, via) =
+                        a22tcp__new_header(&mut encoder.auth, msg, &session.mode, session.identity.request_salt.as_ref().map(|arr| &arr[..]))
+                            .map_err(|e| verif_err())?;
+                    dst.extend_from_slice(&fix);
+                    dst.extend_from_slice(&via);
+                }
+                Ok(())
+            }
+        }
+    }
+
+    fn decode(&mut self, context: &Context<N>, session: &mut Session<N>, src: &mut BytesMut) -> anyhow::Result<Option<BytesMut>> {
+        if src.is_empty() {
+            return Ok(None);
+        }
+        match self.decoder {
+            Some(ref mut decoder) => {
+                let mut dst = BytesMut::new();
+                decoder.decode_payload(src, &mut dst).map_err(|e| verif_err())?;
+                if dst.is_empty() { Ok(None) } else { Ok(Some(dst)) }
+            }
+            None => self.init_payload_decoder(context, session, src),
+        }
+    }
+
+    fn init_payload_decoder(&mut self, context: &Context<N>, session: &mut Session<N>, src: &mut BytesMut) -> anyhow::Result<Option<BytesMut>> {
+        if src.remaining() < session.identity.salt.len() {
+            return Ok(None);
+        }
+        if context.kind.is_aead_2022() {
+            self.init_aead_2022_payload_decoder(context, session, src)
+        } else {
+            let salt = src.split_to(session.identity.salt.len());
+            /*R2*/
+            self.decoder = Some(ssaead__new_decoder(context.kind, &context.key, &salt).map_err(verif_err_from)?);
+            self.decode(context, session, src)
+        }
+    }
+
+    fn init_aead_2022_payload_decoder(
+        &mut self,
+        context: &Context<N>,
+        session: &mut Session<N>,
+        src: &mut BytesMut,
+    ) -> anyhow::Result<Option<BytesMut>> {
+        let tag_size = context.kind.tag_size();
+        let request_salt_len = if let Mode::Server = session.mode { 0 } else { N };
+        let mut require_eih = false;
+        if matches!(session.mode, Mode::Server) {
+            require_eih = context.kind.support_eih() && context.user_manager.as_ref().is_some_and(|m| m.user_count() > 0);
+        }
+        let eih_len = if require_eih { 16 } else { 0 };
+        let header_len = eih_len + 1 + 8 + request_salt_len + 2 + tag_size;
+        if src.remaining() < header_len + N {
+            return Err(verif_err());
+        }
+        let mut salt = [0; N];
+        let mut _src = Cursor::new(src);
+        _src.copy_to_slice(&mut salt);
+        if context.check_nonce(&salt) {
+            return Err(verif_err());
+        }
+        /*R2*/
+        session.identity.request_salt = Some(salt);
+        let mut header = BytesMut::from(_src.copy_to_bytes(header_len));
+        let mut decoder = if require_eih {
+            let eih = header.split_to(16);
+            a22tcp__new_decoder_with_eih(
+                context.kind,
+                &context.key,
+                &salt,
+                &eih,
+                &mut session.identity,
+                context.user_manager.as_ref().unwrap(),
+            )?
+        } else {
+            a22__new_decoder(context.kind, &context.key, &salt)
+        };
+        decoder.auth.open(&mut header).map_err(|e| verif_err())?;
+        let stream_type = header.get_u8();
+        let expect_stream_type = session.mode.expect_u8();
+        if stream_type != expect_stream_type {
+            return Err(verif_err())
+        }
+        a22__validate_timestamp(header.get_u64()).map_err(verif_err_from)?;
+        if matches!(session.mode, Mode::Client) {
+            header.copy_to_slice(session.identity.request_salt.as_mut().unwrap());
+            /*R2*/
+        };
+        let length = header.get_u16() as usize;
+        if _src.remaining() >= length + tag_size {
+            context.set_nonce(salt);
+            let position = _src.position();
+            let src = _src.into_inner();
+            src.advance(position as usize);
+            let mut via = src.split_to(length + tag_size);
+            decoder.auth.open(&mut via).map_err(|e| verif_err())?;
+            self.decoder = Some(decoder);
+            if matches!(session.mode, Mode::Server) && session.address.is_none() {
+                session.address = Some(address__decode(&mut via)?);
+                if via.remaining() < 2 {
+                    return Err(verif_err());
+                }
+                let padding_len = via.get_u16();
+                if via.remaining() < padding_len as usize {
+                    return Err(verif_err());
+                }
+                via.advance(padding_len as usize);
+            }
+            return Ok(Some(via));
+        }
+        Ok(None)
+    }
+
+    fn with_identity(context: &Context<N>, session: &Session<N>, key: &[u8], identity_keys: &[[u8; N]], dst: &mut BytesMut) {
+        let salt = &session.identity.salt;
+        dst.extend_from_slice(salt);
+        if matches!(session.mode, Mode::Client) && context.kind.support_eih() {
+            a22tcp__with_eih(&context.kind, key, identity_keys, salt, dst);
+        }
+    }
+}
+
+//@@ octo-squirrel/src/codec/shadowsocks/tcp.rs:243-250  struct Session  sha=1392850d69a201bf
+struct Session<const N: usize> {
+    mode: Mode,
+    identity: Identity<N>,
+    address: Option<Address>,
+    }
+
+//@@ octo-squirrel/src/codec/shadowsocks/tcp.rs:252-256  impl Session  sha=21df35fa41e24243
+impl<const N: usize> Session<N> {
+    fn new(mode: Mode, identity: Identity<N>, address: Option<Address>) -> Self {
+        Self { mode, identity, address }
+    }
+}
+
+//@@ octo-squirrel/src/codec/shadowsocks/tcp.rs:258-262  struct Identity  sha=1d0a7a0e004ea6f4
+struct Identity<const N: usize> {
+    salt: [u8; N],
+    request_salt: Option<[u8; N]>,
+    user: Option<ServerUser<N>>,
 }
